@@ -2,6 +2,7 @@ import Peppi.JsonText
 import Peppi.Tar
 import Peppi.TarCut
 import Peppi.PeppiJson
+import Peppi.ArrowDumpA
 import Peppi.ReadStream
 import Peppi.Write
 import Peppi.Utf8
@@ -232,6 +233,12 @@ partial def loop (h : IO.FS.Stream) : IO Unit := do
       | .ok d => IO.println ("ok " ++ d)
       | .err e => IO.println s!"err {e}"
       | .panic p => IO.println s!"panic {p}")
+    | .err e => IO.println s!"err {e}"
+    | .panic p => IO.println s!"panic {p}"
+  | ["intoa", hex] =>
+    -- the proof-level Arrow model (intoF' + normF) of the frames of this replay, as a nameless structural dump
+    match readSlp T {} (parseHex hex) with
+    | .ok g => if g.frames.ports.isEmpty then IO.println "panic no ports" else IO.println ("ok " ++ dumpAF (exportedFrames g))
     | .err e => IO.println s!"err {e}"
     | .panic p => IO.println s!"panic {p}"
   | ["gte", a, b, m, mi] =>
